@@ -544,6 +544,7 @@ func (ex *Exec) applyContract(fr *Frame, st *State, blk *Block, name string, sig
 				ex.check(fr, st, "escape", "release:"+short, pos, implies(cond, or(eq(sArr(ps.T), "0"), not(sel(esc, sArr(ps.T))))))
 				released = append(released, sArr(ps.T))
 				releasedConds = append(releasedConds, cond)
+				st.gone = append(st.gone, goneRef{ref: sArr(ps.T), cond: cond})
 			}
 		}
 	}
@@ -774,6 +775,7 @@ func (ex *Exec) doCopy(fr *Frame, st *State, c *ssa.CallCommon, args []SVal, pos
 	st.assume(eq(n, ite(le(sLen(d), sLen(s)), sLen(d), sLen(s))))
 	mine := ex.heapTerm(st, ex.w.ghostHeap("G_mine"))
 	ex.check(fr, st, "frame-store", "copy", pos, implies(lt("0", n), sel(mine, sArr(d))))
+	ex.checkNotGone(fr, st, sArr(s), pos)
 	old := ex.heapTerm(st, h)
 	nw := ex.havocHeap(st, h)
 	tgt := sArr(d)
@@ -800,6 +802,8 @@ func (ex *Exec) doAppend(fr *Frame, st *State, c *ssa.CallCommon, args []SVal, p
 	n := sLen(t)
 	if fromStr {
 		n = "(strlen " + t + ")"
+	} else {
+		ex.checkNotGone(fr, st, sArr(t), pos)
 	}
 	newLen := ex.fresh("applen", "Int")
 	st.assume(eq(newLen, add(sLen(s), n)))
@@ -1041,4 +1045,16 @@ func pureLibrary(fn *ssa.Function) bool {
 		}
 	}
 	return false
+}
+
+// checkNotGone: the elements of array a are read: a is none of the arrays given back to a pool earlier on this path
+func (ex *Exec) checkNotGone(fr *Frame, st *State, a string, pos token.Pos) {
+	if len(st.gone) == 0 {
+		return
+	}
+	var cs []string
+	for _, g := range st.gone {
+		cs = append(cs, implies(g.cond, not(eq(g.ref, a))))
+	}
+	ex.check(fr, st, "use-after-put", "elements", pos, and(cs...))
 }
